@@ -1,8 +1,8 @@
 """C04 The enumerated valid design vectors are exactly the architectures, one each.\n\nCorrespondence: see harness/procpass.py (enum_checks) - get_all_discrete_x rows decode to themselves with the listed\nactiveness, their designs are pairwise distinct and equal the model's set of designs; get_n_valid_designs = rows = model\ncount; get_n_design_space = product of option counts; imputation ratio = quotient. Complete encoder only."""
 from .. import proc, procpass
 
-KINDS = {'enum-row-not-fixed-point', 'enum-activeness-differs', 'enum-duplicate-design', 'enum-missing-designs', 'enum-extra-designs', 'n-valid-mismatch', 'n-declared-mismatch', 'imputation-ratio-mismatch', 'enum-exc', 'lean-design-space'}
-RULE = ('seeded problems from streams (tame, tree, cons, dv, conn, conn-dv, shared) x the complete encoder; per problem every vector of the declared design space when <= 200 vectors (continuous variables at 3 sample points), else 200 samples; a case is one (problem, encoder); non-trivial = >= 2 architectures or a connection choice or DV nodes; distinct by content hash')
+KINDS = {'restricted-duplicate-rows', 'restricted-design-lost', 'restricted-design-not-in-original', 'restricted-rows-vs-model', 'restricted-count-mismatch', 'restricted-enumeration-exc', 'enum-row-not-fixed-point', 'enum-activeness-differs', 'enum-duplicate-design', 'enum-missing-designs', 'enum-extra-designs', 'n-valid-mismatch', 'n-declared-mismatch', 'imputation-ratio-mismatch', 'enum-exc', 'lean-design-space'}
+RULE = ('seeded problems from streams (tame, tree, cons, dv, conn, conn-dv, shared) x the complete encoder, every third problem additionally with one or two variables fixed; per problem every vector of the declared design space when <= 200 vectors (continuous variables at 3 sample points), else 200 samples; a case is one (problem, encoder); non-trivial = >= 2 architectures or a connection choice or DV nodes; distinct by content hash')
 BUDGET = {'quick': 110, 'thorough': 1500}
 JOBS = {'quick': 4, 'thorough': 16}
 ASSUMPTIONS = ['the complete encoder\'s correction target, the encoder tables and the declared (non-forced) selection variables are read from the implementation and validated, not predicted', 'instances are compared through their semantic content: selection row, connection matrices, DV-node values, node set']
@@ -19,6 +19,28 @@ def check(ctx, rep, spec, enc):
         rep.disagree('harness-exc', {'spec': spec, 'enc': enc}, {'exc': repr(e)[:200], 'tb': traceback.format_exc(limit=5)[-700:]})
 
 
+FIXED_KINDS = {'restricted-duplicate-rows', 'restricted-design-lost', 'restricted-design-not-in-original',
+               'restricted-rows-vs-model', 'restricted-count-mismatch', 'restricted-enumeration-exc'}
+
+
+def check_fixed(ctx, rep, spec, i):
+    """"... with/without fixed variables": the enumeration and the count with one or two variables fixed are exactly the
+    designs of the original enumeration that carry the fixed values (the machinery of C15, judged here on the enumeration
+    clauses only)."""
+    from ..core import Report
+    from . import c15
+    sub = Report()
+    try:
+        c15.check_problem(ctx, sub, spec, i)
+    except Exception as e:
+        rep.count('fixed-pass-exc:' + type(e).__name__)
+        return
+    rep.count('fixed-pass')
+    for d in sub.disagreements:
+        if d['kind'] in FIXED_KINDS:
+            rep.disagree(d['kind'], d['input'], d['detail'], d['cls'])
+
+
 def run(ctx, rep):
     n = ctx.pick(300, 6000)
     i = 0
@@ -30,6 +52,8 @@ def run(ctx, rep):
             check(ctx, rep, spec, enc)
             if ctx.out_of_time():
                 break
+        if i % 3 == 0 and not spec.get('stream') == 'shared':
+            check_fixed(ctx, rep, spec, i)
         if ctx.out_of_time():
             break
     rep.notes.append('problems generated: %d' % (i + 1))
@@ -37,6 +61,7 @@ def run(ctx, rep):
 
 def replay(ctx, rep, payload):
     check(ctx, rep, payload['input']['spec'], payload['input']['enc'])
+    check_fixed(ctx, rep, payload['input']['spec'], 0)
 
 
 def replay_finding(ctx, f):
